@@ -86,9 +86,15 @@ def generate(seed, h, tier):
     idx = order[h * n:(h + 1) * n]
     fr = core.Rng(seed, ID, h, "faults")
     faults = {}
+    cells = [list(grid()[i]) for i in idx]
     if idx and fr.chance(0.6):
-        for _ in range(1 + fr.randrange(2)):
-            ji = fr.randrange(min(3, len(idx)))
+        # faults hit extra "sacrificial" jobs put in front of the history, never a grid cell of this
+        # history: every cell of the grid is judged (the thorough tier stays exhaustive), and every
+        # job after the last fault must complete (progress once faults stop)
+        k = 1 + fr.randrange(2)
+        extra = [list(grid()[fr.randrange(len(grid()))]) for _ in range(k)]
+        cells = extra + cells
+        for ji in range(k):
             seam = fr.pick(["solve", "write", "read"])
             if seam == "solve":
                 faults[str(ji)] = [{"seam": "solve", "at": fr.randrange(9), "kind": fr.pick(["exec", "status:-1", "status:0", "slow"])}]
@@ -96,7 +102,7 @@ def generate(seed, h, tier):
                 faults[str(ji)] = [{"seam": "write", "at": fr.randrange(3), "kind": fr.pick(["enospc", "eio", "short"]), "k": fr.randrange(300)}]
             else:
                 faults[str(ji)] = [{"seam": "read", "at": fr.randrange(15), "kind": fr.pick(["enoent", "eio", "parse"])}]
-    return {"h": h, "cells": [list(grid()[i]) for i in idx], "faults": faults}
+    return {"h": h, "cells": cells, "faults": faults}
 
 
 _ORDER = {}
